@@ -35,10 +35,12 @@ MODEL = {
 
 
 def case_to_coq(c):
+    if c["class"] == "paths":
+        path = file_bytes(c["obs"]["files"][0])
+        return None, "path_case %d %s %s" % (c["id"], C.cq_bytes(list(path)), C.cq_bool(bool(c["obs"].get("accepted"))))
     if c["class"] == "names":
         real = file_bytes(c["obs"]["files"][0])
-        return "(%d, [], [], [], 1)%%Z" % c["id"], \
-               "name_case %d (%s) %s" % (c["id"], MODEL[c["scheme"]](c.get("args") or []), C.cq_bytes(list(real)))
+        return None, "name_case %d (%s) %s" % (c["id"], MODEL[c["scheme"]](c.get("args") or []), C.cq_bytes(list(real)))
     fs = c["obs"].get("files") or []
     return "file_set_case %d [%s]" % (c["id"], "; ".join("(%s, %s)" % (C.cq_str(f["name"]), cq_packed(file_bytes(f))) for f in fs)), None
 
@@ -94,8 +96,9 @@ def evaluate_shard(cases, tag):
             sets.append(a)
         else:
             names.append(b)
+    n_sets = len(sets)
     body = "From Coq Require Import Uint63.\n"
-    body += "From NIC Require Import Lex.Pack Lex.Lexer Lex.Parser Lex.Check Lex.C07Cases Names.Idents.\n"
+    body += "From NIC Require Import Lex.Pack Lex.Lexer Lex.Parser Lex.Check Lex.IngressPath Lex.C07Cases Names.Idents.\n"
     body += "Definition full : list verdict := Eval vm_compute in\n [" + ";\n ".join(sets) + "].\n"
     body += "Definition results : list (list Z) := Eval vm_compute in (map row full ++ [" + ";\n ".join(names) + "])%list.\nPrint results.\n"
     body += "Definition details := Eval vm_compute in filter failing full.\nPrint details.\n"
@@ -217,6 +220,17 @@ def judge(run, cases, rows, details, verbose=False):
             continue
         row = rows[c["id"]]
         cid, agree, spec, nontrivial, tag = row
+        if c["class"] == "paths":
+            path = file_bytes(o["files"][0]).decode("latin1")
+            run.count_case({"path": path}, True)
+            run.cov["traces_validated_against_impl"] += 1
+            k = "paths:" + ("accepted" if o.get("accepted") else "rejected")
+            run.cov.setdefault("by_family", {})[k] = run.cov.setdefault("by_family", {}).get(k, 0) + 1
+            if not agree:
+                run.failing({"kind": "correspondence", "scheme": "ingress_path"}, [slim(c)],
+                            "the real Ingress path validator accepts %r but the model Lex.IngressPath.ingress_path_ok rejects it" % path,
+                            theorem="correspondence Lex.IngressPath ~ internal/k8s/validation.go validatePath", found_input=False)
+            continue
         if c["class"] == "names":
             run.count_case({"scheme": c["scheme"], "args": c.get("args")}, True)
             run.cov["traces_validated_against_impl"] += 1
@@ -272,7 +286,7 @@ TRUSTED = [
 
 
 def check(run):
-    n = 230 if run.tier == "quick" else 4000
+    n = 450 if run.tier == "quick" else 6000
     run.proof_obligations()
     binary = C.go_build("c07")
     out = os.path.join(C.WORK, "cases", "c07_%s.jsonl" % run.tier)
